@@ -8,7 +8,7 @@ PROPS = {'C01': {'assumptions': ['hostile bytes inside histories are decoded und
          'lanes_thorough': ['D', 'R', 'M'],
          'max_cases_miri': 6,
          'miri_workers': 6,
-         'required_counters': ['cover:kind:BTreeMap',
+         'required_counters': ['agree:multi-argument', 'cover:kind:BTreeMap',
                                'cover:kind:HashMap',
                                'cover:kind:recursive',
                                'cover:kind:reference',
@@ -24,7 +24,7 @@ PROPS = {'C01': {'assumptions': ['hostile bytes inside histories are decoded und
                  'of 0..12 earlier calls (type derivation, round-trips, encode-only, metered decodes of mutated bytes, IDLBuilder::new, untyped decodes, '
                  'decodes of foreign messages). Oracle: both succeed, leave nothing unread, return a value equal to the original (floats bitwise, NaN payloads '
                  'included) and (except hash containers, whose iteration order is per instance) produce identical bytes. non-trivial = non-empty value; '
-                 'distinct by (Rust type, encoded length, history shape)'},
+                 'distinct by (Rust type, encoded length, history shape); second family multi-argument-roundtrip: 2..4 values of different corpus types in ONE message read back argument by argument on ONE deserializer (what a specialised container path leaves in the decoder must not reach the next argument)'},
  'C02': {'assumptions': ["every type is a subtype of every option type (the option rules of spec/Candid.md taken together; the repository's spec tests agree)",
                          'wire table entries that are records containing themselves through record fields alone denote `empty` when wire reference types are '
                          'compared (normalisation done by the decoder and relied on by test/subtypes.test.did)',
@@ -35,7 +35,7 @@ PROPS = {'C01': {'assumptions': ['hostile bytes inside histories are decoded und
          'budget_thorough': 180,
          'lanes_quick': ['D', 'R'],
          'lanes_thorough': ['D', 'R'],
-         'required_counters': ['cover:rule:opt:backtrack',
+         'required_counters': ['cover:mutated:value-byte', 'cover:rule:opt:backtrack',
                                'cover:rule:opt:constituent-backtrack',
                                'cover:rule:record:missing-optional',
                                'cover:rule:record:surplus',
@@ -55,7 +55,7 @@ PROPS = {'C01': {'assumptions': ['hostile bytes inside histories are decoded und
                  'third of the second family is byte-mutated first. Oracle: reference decoder R1 (malformed => must fail; documented limits excluded) then '
                  'spec coercion R2 (fails => must fail; succeeds => candid must succeed with exactly the coerced values); IDLArgs::from_bytes must equal R1 '
                  'itself. non-trivial = expected types differ from wire types or bytes mutated; distinct by (wire shapes, expected shapes, outcome class). '
-                 'coverage.counters cover:rule:* are the R2 rule applications'},
+                 'coverage.counters cover:rule:* are the R2 rule applications; a third of the mutations leave the header intact and turn one value byte into an impossible bool / UTF-8 byte (whether it is read, skipped as surplus or sits below a failing option is decided by the expected type)'},
  'C03': {'assumptions': ["IDLArgs::to_bytes infers a vector's element type from its first element: values with heterogeneous vectors have no inferred type and "
                          'are excluded from the to_bytes check (counter excluded:to_bytes-heterogeneous-vector)',
                          'hash containers are excluded from the byte-determinism comparison'],
@@ -99,7 +99,7 @@ PROPS = {'C01': {'assumptions': ['hostile bytes inside histories are decoded und
          'exhaustive_whole': False,
          'lanes_quick': ['D', 'R'],
          'lanes_thorough': ['D', 'R'],
-         'required_counters': ['agree:subtype-yes',
+         'required_counters': ['agree:rust-derived:subtype-yes', 'agree:rust-derived:subtype-no', 'agree:subtype-yes',
                                'agree:subtype-no',
                                'cover:shared-memo-queries',
                                'cover:transitivity-triples',
@@ -111,7 +111,7 @@ PROPS = {'C01': {'assumptions': ['hostile bytes inside histories are decoded und
                  'of queries sharing one memo (reset after a failed query); (4) the same services printed as .did text with permuted fields/definitions and '
                  'renamed definitions through service_compatible, service_compatibility_report, service_equal. Oracle: greatest fixed point R3 over all '
                  'reachable pairs; report empty iff compatible; answers with a shared memo = answers with a fresh memo. non-trivial: every query on '
-                 'constructed types; distinct by type-shape pair / environment index'},
+                 'constructed types; distinct by type-shape pair / environment index; (5) rust-derived-types: subtype / subtype_check_all / equal on T::ty() of two corpus Rust types (recursion tied with Knot nodes), after deriving 0..3 other types first on a fresh thread, against R3 on the hand-written models of the two types'},
  'C06': {'assumptions': ['without a decoding quota no work/memory claim is made (unmetered decoding is documented as unbounded): such runs are cut after '
                          '3*10^6 element accesses and counted as excluded:no-quota-beyond-step-limit',
                          'the allocation monitor is a counting global allocator in the worker (off in the ASan/valgrind lanes)'],
@@ -147,7 +147,7 @@ PROPS = {'C01': {'assumptions': ['hostile bytes inside histories are decoded und
          'budget_thorough': 150,
          'lanes_quick': ['D', 'R'],
          'lanes_thorough': ['D', 'R'],
-         'required_counters': ['agree:native', 'agree:untyped', 'agree:native-related-wire', 'cover:surplus-arguments', 'cover:unmetered-fails',
+         'required_counters': ['agree:mixed-sequence', 'agree:native', 'agree:untyped', 'agree:native-related-wire', 'cover:surplus-arguments', 'cover:unmetered-fails',
                                'cover:entry-point:decode_args_with_config_debug', 'cover:entry-point:IDLArgs::from_bytes_with_types_with_config',
                                'agree:const-quota-wrapper:ok', 'agree:const-quota-wrapper:quota-error'],
          'rule': 'valid messages: corpus Rust type + 0..2 surplus arguments (native), a corpus Rust type reading a message of a related wire type '
@@ -158,7 +158,7 @@ PROPS = {'C01': {'assumptions': ['hostile bytes inside histories are decoded und
                  'skipped nodes; element-access steps (hook) <= decoding cost; decoding cost <= 10 x documented cost model + 1500; the other public entry points that take a '
                  'configuration (decode_one_with_config, decode_args_with_config[_debug], Decode!([cfg]) and @Debug, IDLArgs::from_bytes_with_types_with_config, '
                  'the six const-generic decode_*_with_*_quota wrappers) give the same result, cost and quota error at the same quotas. non-trivial: every message; '
-                 'distinct by (target, length) / type shapes'},
+                 'distinct by (target, length) / type shapes; mixed-sequence: 2..3 arguments read on ONE deserializer each its own way (native / IDLValue / untyped at its type; no reference types): values equal and skipping cost equal to the sum over the same reads on single-argument messages, decoding cost equal up to the header term'},
  'C08': {'assumptions': ['host limits (excluded, counted): 128-bit integer range, fixed array length, duplicate map/set keys, BoundedVec limits, borrowed '
                          'slices need a blob/text/principal on the wire'],
          'budget_quick': 20,
@@ -201,7 +201,7 @@ PROPS = {'C01': {'assumptions': ['hostile bytes inside histories are decoded und
          'budget_thorough': 150,
          'lanes_quick': ['D', 'R'],
          'lanes_thorough': ['D', 'R'],
-         'required_counters': ['agree:typed-roundtrip',
+         'required_counters': ['agree:annotate_types-rejects-surplus-values', 'agree:annotate_types-omitted-values', 'agree:typed-roundtrip',
                                'agree:untyped-roundtrip',
                                'agree:annotate-rejects',
                                'agree:encode-rejects',
@@ -215,7 +215,7 @@ PROPS = {'C01': {'assumptions': ['hostile bytes inside histories are decoded und
                  'types return the value (model equality and IDLValue ==). Near-miss family: one edit (wrong number width/sign, kind, reference kind, removed '
                  'required field, unknown tag, foreign vector element) judged by an independent lenient typing (nat at int, anything at reserved, null at '
                  'opt): ill-typed values must be rejected by annotate_type(true) and to_bytes_with_types. non-trivial: every case; distinct by type shapes / '
-                 '(edit, type shape)'},
+                 '(edit, type shape); argument-count-mismatch: IDLArgs::annotate_types with more values than types is an error (no panic), with fewer values it succeeds iff the omitted types are null/opt/reserved'},
  'C11': {'assumptions': ['NaN / infinite floats are never generated (property: floats finite).',
                          'parse_idl_value has no top-level annotation (`5 : nat8` is not an `Arg`): when it rejects the printed text of an annotated number / '
                          'null / reserved for that reason the value is re-read as `(text)`; counted under '
@@ -348,7 +348,7 @@ PROPS = {'C01': {'assumptions': ['hostile bytes inside histories are decoded und
          'lanes_thorough': ['D', 'R', 'A', 'V', 'M'],
          'max_cases_miri': 6,
          'miri_workers': 6,
-         'required_counters': ['family:token-soup',
+         'required_counters': ['family:values-annotated-with-another-type', 'family:token-soup',
                                'family:one-token-mutants',
                                'family:valid-sentences',
                                'family:boundary-numerals',
@@ -383,7 +383,7 @@ PROPS = {'C01': {'assumptions': ['hostile bytes inside histories are decoded und
                  '12%, unterminated strings / nested and unclosed comments / doc-comment trivia 5%, nesting 1..128 of 14 constructs 4%, character-level '
                  'mutants 3%. A panicking input is shrunk (greedy chunk removal, same panic location) and the class label is computed from the shrunk input. '
                  "Non-trivial: Ok, or error offset past the first token. Distinct by (entry, 'ok', first three words with digits->0) or (entry, 'err', first "
-                 '40 chars of the message without digits).'},
+                 '40 chars of the message without digits).; values-annotated-with-another-type: typed compound values (vectors mixing element kinds, options, records, variants) annotated with a type that does not fit, so that the parser action builds its type-mismatch error (which renders the value)'},
  'C14': {'assumptions': ['`query query` / `oneway oneway` count as two annotations (property text: at most one annotation)',
                          'argument names must be unique within one argument list or one result list (the generator keeps them unique across both)',
                          'two method names with the same hash are legal (methods are identified by name; spec)',
